@@ -58,7 +58,8 @@ Inductive op :=
 | OpRemoveElements (Sx : list name)
 | OpRemoveRate (p q : Z)
 | OpUnifiedDataset
-| OpSubProblem (K : list name).
+| OpSubProblem (K : list name)
+| OpRefused.   (* the state observed after a mutator raised: a refused operation must leave the dataset as it was *)
 
 Definition apply_op (before : list nranking) (o : op) : result derr dataset_obj :=
   match o with
@@ -74,6 +75,7 @@ Definition apply_op (before : list nranking) (o : op) : result derr dataset_obj 
           | OpRemoveRate p q => remove_rate d p q
           | OpUnifiedDataset => unified_dataset d
           | OpSubProblem K => sub_problem d K
+          | OpRefused => Ok d
           end
       end
   end.
@@ -94,6 +96,8 @@ Definition spec_op (before : list nranking) (o : op) (after : list nranking) : b
       (* exactly the projections on the complement, emptied rankings dropped, order kept *)
       list_eqb nranking_eqb after
         (retype (filter (fun r => negb (Nat.eqb (List.length r) 0)) (map (project_out Sx) before)))
+  | OpRefused => list_eqb nranking_eqb after before
+  | OpNew raw => list_eqb nranking_eqb after (retype raw)   (* the constructor keeps the rankings; all names integer-like -> int, else str *)
   | OpRemoveEmpty => list_eqb nranking_eqb after (retype (filter (fun r => negb (Nat.eqb (List.length r) 0)) before))
   | OpSubProblem K =>
       list_eqb nranking_eqb after (retype (filter (fun r => negb (Nat.eqb (List.length r) 0)) (map (project_on K) before)))
